@@ -13,7 +13,7 @@ func init() {
 }
 
 func checkC25(r *Run) {
-	r.Explain = "(R3+) no message process method is called except through the gated dispatch of onMessageEvent, and every message type's Handle only queues itself (recordMessageEvent(self, mc)) without any daemon operation before the gate; C25: (R1) IntroductionMessage.Verify succeeds only with mirror != ours, protocol version >= minimum, extra data carrying this network's blockchain pubkey (copied from Extra[:33] and compared), valid verification parameters, a parseable user agent — and rejects for nothing else; (R2) a connection is marked introduced only from IntroductionMessage.process after Verify succeeded; (R3) before introduction only Introduction, Disconnect and GivePeers messages are dispatched to their handler, and asyncMessage.process is called from nowhere else; (R4) every slice/index of the untrusted Extra bytes is in bounds on every path."
+	r.Explain = "(R1+) useragent.Parse accepts only non-empty, validated strings that the pattern matches entirely and whose version is valid semver, unconditionally; (R3+) no message process method is called except through the gated dispatch of onMessageEvent, and every message type's Handle only queues itself (recordMessageEvent(self, mc)) without any daemon operation before the gate; C25: (R1) IntroductionMessage.Verify succeeds only with mirror != ours, protocol version >= minimum, extra data carrying this network's blockchain pubkey (copied from Extra[:33] and compared), valid verification parameters, a parseable user agent — and rejects for nothing else; (R2) a connection is marked introduced only from IntroductionMessage.process after Verify succeeded; (R3) before introduction only Introduction, Disconnect and GivePeers messages are dispatched to their handler, and asyncMessage.process is called from nowhere else; (R4) every slice/index of the untrusted Extra bytes is in bounds on every path."
 	r.NotDec = "behaviour of the user-agent parser itself; network-level sequencing"
 	// "valid user agent" (R1): what useragent.Parse accepts — non-empty, charset/length validated, the whole string
 	// matches the user-agent pattern, and the version part is valid semver, unconditionally
